@@ -10,7 +10,7 @@
                                     4.. not listed
    Obj k      = k-th instance made by the harness, of harness class A (k even) or B (k odd)
    Foreign k  = an object that is not an instance of the manager's backend class *)
-From Coq Require Import List Arith Bool.
+From Coq Require Import List Arith Bool NArith.
 From TLV Require Import Model.Backend Corr.Common.
 Import ListNotations.
 
@@ -74,12 +74,104 @@ Definition own_of (l : list (tid * inst)) : tid -> option inst :=
 (* id, manager (false = tensorly.backend, true = tensorly.tenalg), threads that already hold a
    selection at the start (the importing thread), observer threads, what they saw at the start,
    the history *)
-Definition case := (nat * bool * list (tid * inst) * list tid * list seen * list entry)%type.
+Definition hcase := (bool * list (tid * inst) * list tid * list seen * list entry)%type.
 
-Definition agree (c : case) : bool :=
-  let '(_, tenalg, own0, ths, xs0, es) := c in
+Definition agree_h (c : hcase) : bool :=
+  let '(tenalg, own0, ths, xs0, es) := c in
   let s := init (own_of own0) in
   all_seen tenalg s ths xs0 && check tenalg ths s es.
-Definition ident (c : case) : nat := let '(i, _, _, _, _, _) := c in i.
+
+(* ---- compact transport format.  Elaborating tens of thousands of nested list literals costs Coq
+   ~10 ms per history, so the harness ships every history + observations as ONE number: a stream of
+   base-64 digits, least significant first, closed by a final digit 1:
+     tenalg, nthreads, main_holds_selection, seen * nthreads, nsteps,
+     then per step: kind (0 set, 1 enter, 2 exit), thread, a, b, c, outcome, seen * nthreads
+       set/enter: a = selector kind (0 name, 1 instance, 2 non-instance), b = its index, c = local flag
+       exit     : a = exceptional?, b = c = 0
+       outcome  : 0 done, 1 rejected, 2 exit failed, 3 no context
+     seen = two digits: code of the name get_backend() returned (63 = a name outside the tables),
+            executing object (0 unmarked stock object, 1 unidentified, 2+n Named n, 8+k Obj k) *)
+Fixpoint digits (fuel : nat) (x : N) : list nat :=
+  match fuel with
+  | O => []
+  | S f => if N.leb x 1 then [] else N.to_nat (N.modulo x 64) :: digits f (N.div x 64)
+  end.
+
+Definition dec_tok (d : nat) : option inst :=
+  match d with 0 => None | 1 => Some (Foreign 99) | _ => if d <? 8 then Some (Named (d - 2)) else Some (Obj (d - 8)) end.
+
+Fixpoint dec_seen (n : nat) (l : list nat) : option (list seen * list nat) :=
+  match n with
+  | O => Some ([], l)
+  | S n' => match l with
+            | q :: d :: l' => match dec_seen n' l' with Some (xs, r) => Some ((q, dec_tok d) :: xs, r) | None => None end
+            | _ => None
+            end
+  end.
+
+Definition dec_sel (a b : nat) : sel :=
+  match a with 0 => SName b | 1 => SInst (Obj b) | _ => SInst (Foreign b) end.
+Definition dec_bool (c : nat) : bool := negb (Nat.eqb c 0).
+Definition dec_out (d : nat) : obs :=
+  match d with 0 => ODone | 1 => ORejected | 2 => OExitFailed | _ => ONoCtx end.
+
+Fixpoint dec_steps (nth n : nat) (l : list nat) : option (list entry) :=
+  match n with
+  | O => match l with [] => Some [] | _ => None end
+  | S n' =>
+      match l with
+      | k :: t :: a :: b :: c :: o :: l' =>
+          match dec_seen nth l' with
+          | Some (xs, r) =>
+              let op := match k with
+                        | 0 => Set_ t (dec_sel a b) (dec_bool c)
+                        | 1 => Enter t (dec_sel a b) (dec_bool c)
+                        | _ => Exit_ t (dec_bool a)
+                        end in
+              match dec_steps nth n' r with Some es => Some ((op, dec_out o, xs) :: es) | None => None end
+          | None => None
+          end
+      | _ => None
+      end
+  end.
+
+Definition decode (x : N) : option hcase :=
+  match digits (N.size_nat x) x with
+  | ta :: nth :: own :: l =>
+      match dec_seen nth l with
+      | Some (xs0, ns :: r) =>
+          match dec_steps nth ns r with
+          | Some es => Some (dec_bool ta, if dec_bool own then [(0, Named 0)] else [], seq 0 nth, xs0, es)
+          | None => None
+          end
+      | _ => None
+      end
+  | _ => None
+  end.
+
+(* a case: (id, encoded history with observations).  An undecodable case counts as failing. *)
+Definition case := (N * N)%type.
+Definition agree (c : case) : bool := match decode (snd c) with Some h => agree_h h | None => false end.
+Definition ident (c : case) : nat := N.to_nat (fst c).
 Definition failing := failing_ids agree ident.
 
+
+(* short forms for hand-written cases *)
+Definition sn (n : name) : sel := SName n.
+Definition so (k : nat) : sel := SInst (Obj k).
+Definition sf (k : nat) : sel := SInst (Foreign k).
+Definition n_ (q k : nat) : seen := (q, Some (Named k)).     (* get_backend code q, executed by the instance loaded for name k *)
+Definition o_ (q k : nat) : seen := (q, Some (Obj k)).       (* ... by harness instance k *)
+Definition u_ (q : nat) : seen := (q, None).                 (* ... by an unmarked object of a stock class *)
+Definition x_ (q : nat) : seen := (q, Some (Foreign 99)).    (* ... by an object the harness cannot identify *)
+
+(* the decoder and the comparator are live: a history in transport format decodes to the expected
+   structure, agrees, and stops agreeing when one observation is altered *)
+Example decode_example :
+  (* tenalg=0, 2 threads, main holds; seen: (0,Named 0) (0,Named 0); 1 step: Set_ 1 (so 1) true, done; seen (0,Named 0) (2,Obj 1) *)
+  let ds := [0;2;1; 0;2; 0;2; 1; 0;1;1;1;1;0; 0;2; 2;9; 1] in
+  let x := fold_right (fun d acc => (N.of_nat d + 64 * acc)%N) 0%N ds in
+  decode x = Some (false, [(0, Named 0)], [0;1], [n_ 0 0; n_ 0 0], [(Set_ 1 (so 1) true, ODone, [n_ 0 0; o_ 2 1])]) /\
+  agree (0%N, x) = true /\
+  agree (0%N, (x + 64 ^ 17)%N) = false.
+Proof. vm_compute. repeat split. Qed.
